@@ -1,6 +1,6 @@
 (* The model instantiated with the tables regenerated from /repo's current source. *)
-From SqlModel Require Import Base Re Lexer.
-From SqlModel.Gen Require Import Atoms CaseTabs KwTabs Rules.
+From SqlModel Require Import Base PyStr Re Lexer SplitDefs Splitter.
+From SqlModel.Gen Require Import Atoms CaseTabs KwTabs Rules SplitTab.
 
 Definition cur_lex (t : text) : res (list tok) := lex lower upper sql_regex kws t.
 Definition cur_first_match (x : st) : option (action * nat) := first_match lower sql_regex x.
@@ -9,3 +9,10 @@ Definition cur_rmatch (i : nat) (x : st) : option nat :=
   | Some (r, _) => rmatch lower r x
   | None => None
   end.
+
+(* statement splitter over the current decision tables *)
+Definition cur_process (stream : list tok) : list (list tok) :=
+  process reset_sstate change_splitlevel eos_ttypes is_terminator stream.
+
+Definition cur_split_stream (t : text) : res (list (list tok)) :=
+  toks <- cur_lex t ;; Ok (cur_process toks).
